@@ -22,7 +22,7 @@ for p in props:
     if p in claims:
         c=claims[p]
         m["checks"].append({"property_id":p,"quick_cmd":f"./check {p} --tier quick","thorough_cmd":f"./check {p} --tier thorough","evidence_file":f"/verif/evidence/{p}.json","replay_cmd_template":f"./check {p} --replay {{path}}","engine":"gosmt",
-          "level_claimed":{"category":"model_checking","text":c['text'],"design_ref":c['ref']},
+          "level_claimed":{"category":"model_checking","text":c['text'],"design_ref":c['ref']+" (plan); §8.2–§8.3 and §8.7–§8.8 (as built)"},
           "level_note":c['note'],"technique":TECH})
     else:
         m["not_applicable"].append({"property_id":p,"reason":na.get(p,"check not built yet (work in progress); no claim is made")})
